@@ -132,7 +132,9 @@ type rWorld struct {
 	noSleep     bool
 	viol        []map[string]any
 	monitorOnly bool          // a trace outside the model's op language (timing bursts): monitors only, no correspondence
+	holdClose   chan struct{} // non-nil: a sender that reaches the schedule point sender.afterClose (its channel is closed, not yet unregistered) waits here
 	burst       bool          // burst trace: no virtual time passes after an op unless it is `nap <ms>`
+	holdMu      sync.Mutex
 	napFor      time.Duration // the next settle sleeps this long instead of 1.3 s
 	seq         int           // op sequence number
 	maxHigh     []int64       // per source: largest exclusive high of an EMPTY batch so far (only those travel on as watermark messages: broadcast or replay)
@@ -647,6 +649,19 @@ func (w *rWorld) exec(op string) (string, string) {
 		if ti := w.tgt[int(n(1))]; ti != nil {
 			ti.stream.SetGate(f[2] == "1")
 		}
+	case "hold": // window traces: the next sender to close its channel stops right after closing it, before anything is unregistered
+		w.holdMu.Lock()
+		if w.holdClose == nil {
+			w.holdClose = make(chan struct{})
+		}
+		w.holdMu.Unlock()
+	case "release":
+		w.holdMu.Lock()
+		if w.holdClose != nil {
+			close(w.holdClose)
+			w.holdClose = nil
+		}
+		w.holdMu.Unlock()
 	case "nap": // burst traces: this much virtual time passes (less than a ticker period, or more)
 		w.napFor = time.Duration(n(1)) * time.Millisecond
 	case "sgate": // the SOURCE cluster stops / resumes reading what the proxy sends it on stream s: the proxy's Send of an ack blocks
@@ -684,6 +699,12 @@ func (w *rWorld) exec(op string) (string, string) {
 }
 
 func (w *rWorld) close() {
+	w.holdMu.Lock()
+	if w.holdClose != nil {
+		close(w.holdClose)
+		w.holdClose = nil
+	}
+	w.holdMu.Unlock()
 	for _, cs := range w.srcCli {
 		if cs != nil {
 			cs.SetGate(false)
@@ -714,7 +735,21 @@ func runRoutingTrace(t *testing.T, e *Env, begin string, next func(w *rWorld, i 
 		ns, _ := strconv.Atoi(f[1])
 		nt, _ := strconv.Atoi(f[2])
 		w := newRWorld(t, ns, nt)
-		w.monitorOnly = len(f) > 5 && (f[5] == "slowsrc" || f[5] == "burst")
+		w.monitorOnly = len(f) > 5 && (f[5] == "slowsrc" || f[5] == "burst" || f[5] == "window")
+		if len(f) > 5 && f[5] == "window" {
+			proxy.VerifSetPointHandler(func(name string) {
+				if name != "sender.afterClose" {
+					return
+				}
+				w.holdMu.Lock()
+				ch := w.holdClose
+				w.holdMu.Unlock()
+				if ch != nil {
+					<-ch
+				}
+			})
+			defer proxy.VerifSetPointHandler(nil)
+		}
 		w.burst = len(f) > 5 && f[5] == "burst"
 		if w.monitorOnly {
 			e.Emit("# "+begin, "#")
